@@ -229,3 +229,89 @@ Definition tg_erase (g : tg) (a b : Z) (s : bool) : res tg :=
 Definition tg_space (g : tg) (s d : Z) (m : spacemode) : res tg :=
   do l <- mapM (fun t => space_tier t s d m) (tiers g);
   add_all (mkTG [] (tgmin g) (match tgmax g with Some x => Some (x + d) | None => None end)) l RWarning.
+
+(* ---------------- Textgrid.editTimestamps: tier after tier, each added to a textgrid with the old span ---------------- *)
+
+Definition tents_empty (t : tier) : bool :=
+  match t with
+  | TI t => match ients t with [] => true | _ => false end
+  | TP t => match pents t with [] => true | _ => false end
+  end.
+
+Definition edit_tier (t : tier) (o : Z) (m : repmode) : res tier :=
+  match t with TI t => do x <- edit_i t o m; Ok (TI x) | TP t => do x <- edit_p t o m; Ok (TP x) end.
+
+(* tiers without entries are carried over unchanged (the source skips them) *)
+Definition edit_or_keep (t : tier) (o : Z) (m : repmode) : res tier :=
+  if tents_empty t then Ok t else edit_tier t o m.
+
+Fixpoint edit_all (g : tg) (l : list tier) (o : Z) (m : repmode) : res tg :=
+  match l with
+  | [] => Ok g
+  | t :: l' =>
+      do t' <- edit_or_keep t o m;
+      match add_step g t' None m with
+      | (Ok _, g') => edit_all g' l' o m
+      | (Err e, _) => Err e
+      end
+  end.
+
+Definition tg_edit (g : tg) (o : Z) (m : repmode) : res tg :=
+  edit_all (mkTG [] (tgmin g) (tgmax g)) (tiers g) o m.
+
+(* ---------------- Textgrid.appendTextgrid ---------------- *)
+
+Definition name_in (n : text) (l : list text) : bool := existsb (text_eqb n) l.
+
+(* tier.new(minTimestamp=, maxTimestamp=): same name and entries, requested span *)
+Definition respan (t : tier) (mn mx : Z) : res tier :=
+  match t with
+  | TI t => do x <- new_itier (iname t) (ients t) (Some mn) (Some mx); Ok (TI x)
+  | TP t => do x <- new_ptier (pname t) (pents t) (Some mn) (Some mx); Ok (TP x)
+  end.
+
+(* tier.new(entries = own entries followed by the other tier's, span): kinds must agree *)
+Definition join_entries (a b : tier) (mn mx : Z) : res tier :=
+  match a, b with
+  | TI a, TI b => do x <- new_itier (iname a) (ients a ++ ients b) (Some mn) (Some mx); Ok (TI x)
+  | TP a, TP b => do x <- new_ptier (pname a) (pents a ++ pents b) (Some mn) (Some mx); Ok (TP x)
+  | _, _ => Err PyError       (* entries of two kinds in one list: outside the modelled domain *)
+  end.
+
+Definition final_names (A B : tg) (only : bool) : list text :=
+  let na := names A in let nb := names B in
+  let combined := na ++ filter (fun n => negb (name_in n na)) nb in
+  if only then filter (fun n => name_in n na && name_in n nb) combined else combined.
+
+Definition append_one (ma mn mx : Z) (B : tg) (g : tg) (n : text) : res tg :=
+  match find_tier n (tiers B) with
+  | None => Ok g
+  | Some tb =>
+      do t1 <- respan tb mn mx;
+      do t2 <- edit_tier t1 ma RWarning;
+      match find_tier n (tiers g) with
+      | Some ta =>
+          do t3 <- join_entries ta t2 mn mx;
+          match replace_step g n t3 RWarning with
+          | (Ok _, g') => Ok g'
+          | (Err e, _) => Err e
+          end
+      | None =>
+          do t3 <- respan t2 mn mx;
+          match add_step g t3 None RWarning with
+          | (Ok _, g') => Ok g'
+          | (Err e, _) => Err e
+          end
+      end
+  end.
+
+Definition tg_append (A B : tg) (only : bool) : res tg :=
+  match tgmin A, tgmax A, tgmax B with
+  | Some mn, Some ma, Some mb =>
+      let mx := ma + mb in
+      let final := final_names A B only in
+      do g1 <- add_all (mkTG [] (Some mn) (Some mx))
+                       (filter_map (fun n => find_tier n (tiers A)) final) RWarning;
+      fold_res (append_one ma mn mx B) final g1
+  | _, _, _ => Err PyError
+  end.
